@@ -37,12 +37,11 @@ theorem endsWith_append_true (s : String) (pre K : Line) (h : endsWith s K = tru
   exact List.isPrefixOf_iff_prefix.2 (hp.trans (List.prefix_append _ _))
 
 theorem goodPrefix_spec {pre : Line} (h : goodPrefix pre = true) :
-    pre ≠ [] ∧ Free isWs pre ∧ (startsWith "/" pre = true ∨ '/' ∉ pre) := by
-  simp only [goodPrefix, Bool.and_eq_true, Bool.or_eq_true, Bool.not_eq_true', List.all_eq_true,
-    List.isEmpty_eq_false_iff, List.contains_eq_mem, decide_eq_false_iff_not] at h
-  exact ⟨h.1.1, h.1.2, h.2⟩
+    Free isWs (basename pre) ∧ goodDir (pre.reverse.dropWhile (· != '/')) = true := by
+  simp only [goodPrefix, Bool.and_eq_true, List.all_eq_true, Bool.not_eq_true'] at h
+  exact ⟨h.1, h.2⟩
 
-theorem split_auxLine (pre : Line) (hne : pre ≠ []) (hf : Free isWs pre) :
+theorem split_auxLine (pre : Line) (hf : Free isWs pre) :
     split ("RowBasedPlacement : ".toList ++ (pre ++ (".nodes ".toList ++ (pre ++ (".nets ".toList ++
       (pre ++ (".pl ".toList ++ (pre ++ ".scl".toList)))))))) =
     ["RowBasedPlacement".toList, [':'], pre ++ ".nodes".toList, pre ++ ".nets".toList, pre ++ ".pl".toList,
@@ -56,15 +55,15 @@ theorem split_auxLine (pre : Line) (hne : pre ≠ []) (hf : Free isWs pre) :
   have e3 : ∀ r, pre ++ (".pl ".toList ++ r) = (pre ++ ".pl".toList) ++ ' ' :: r :=
     fun r => by rw [List.append_assoc]; rfl
   have hw : isWs ' ' = true := by decide
-  have ne : ∀ K : Line, pre ++ K ≠ [] := fun K => by simp [hne]
+  have ne : ∀ K : Line, K ≠ [] → pre ++ K ≠ [] := fun K hK => by simp [hK]
   rw [e0, e1, e2, e3]
   unfold split
   rw [splitBy_tok isWs (by decide) (by unfold Free; decide) hw,
     splitBy_tok isWs (by decide) (by unfold Free; decide) hw,
-    splitBy_tok isWs (ne _) (free_append hf (by unfold Free; decide)) hw,
-    splitBy_tok isWs (ne _) (free_append hf (by unfold Free; decide)) hw,
-    splitBy_tok isWs (ne _) (free_append hf (by unfold Free; decide)) hw,
-    splitBy_tok_end isWs (ne _) (free_append hf (by unfold Free; decide))]
+    splitBy_tok isWs (ne _ (by decide)) (free_append hf (by unfold Free; decide)) hw,
+    splitBy_tok isWs (ne _ (by decide)) (free_append hf (by unfold Free; decide)) hw,
+    splitBy_tok isWs (ne _ (by decide)) (free_append hf (by unfold Free; decide)) hw,
+    splitBy_tok_end isWs (ne _ (by decide)) (free_append hf (by unfold Free; decide))]
 
 theorem startsWith_slash_append {pre : Line} (h : startsWith "/" pre = true) (K : Line) :
     startsWith "/" (pre ++ K) = true := by
@@ -95,11 +94,99 @@ theorem dirname_noslash {p : Line} (h : '/' ∉ p) : dirname p = [] := by
   rw [this]
   rfl
 
-theorem pathJoin_dirname {pre : Line} (hs : startsWith "/" pre = true ∨ '/' ∉ pre) (K K' : Line)
-    (hK : '/' ∉ K) : pathJoin (dirname (pre ++ K)) (pre ++ K') = pre ++ K' := by
-  rcases hs with hs | hs
-  · exact pathJoin_abs (startsWith_slash_append hs K') _
-  · rw [dirname_noslash (by simp [hs, hK]), pathJoin_nil]
+theorem dropWhile_head (p : Char → Bool) : ∀ (l : Line) (x : Char) (r : Line), l.dropWhile p = x :: r → p x = false := by
+  intro l
+  induction l with
+  | nil => intro x r h; simp at h
+  | cons c cs ih =>
+    intro x r h
+    rw [List.dropWhile_cons] at h
+    split at h
+    · exact ih x r h
+    · rename_i hc
+      simp only [List.cons.injEq] at h
+      rw [← h.1]; simpa using hc
+
+theorem mem_takeWhile (p : Char → Bool) : ∀ (l : Line) (x : Char), x ∈ l.takeWhile p → p x = true := by
+  intro l
+  induction l with
+  | nil => intro x h; simp at h
+  | cons c cs ih =>
+    intro x h
+    rw [List.takeWhile_cons] at h
+    split at h
+    · rename_i hc
+      rcases List.mem_cons.1 h with e | e
+      · rw [e]; exact hc
+      · exact ih x e
+    · simp at h
+
+theorem basename_noslash (p : Line) : '/' ∉ basename p := by
+  unfold basename
+  intro h
+  have := mem_takeWhile _ _ _ (List.mem_reverse.1 h)
+  simp at this
+
+theorem slash_prefix_false (c : Char) (r : Line) (hc : c ≠ '/') : ['/'].isPrefixOf (c :: r) = false := by
+  rw [List.isPrefixOf_cons_cons]
+  have : ('/' == c) = false := beq_eq_false_iff_ne.2 (Ne.symm hc)
+  rw [this]; rfl
+
+/-- the directory part (up to the last `/`) followed by the base name is the path -/
+theorem dir_append_base (p : Line) : (p.reverse.dropWhile (· != '/')).reverse ++ basename p = p := by
+  unfold basename
+  rw [← List.reverse_append, List.takeWhile_append_dropWhile, List.reverse_reverse]
+
+theorem dropWhile_append_noslash (p K : Line) (hK : '/' ∉ K) :
+    (p ++ K).reverse.dropWhile (· != '/') = p.reverse.dropWhile (· != '/') := by
+  rw [List.reverse_append, List.dropWhile_append]
+  have : K.reverse.dropWhile (· != '/') = [] := by
+    apply dropWhile_all
+    intro x hx
+    have : x ≠ '/' := fun e => hK (e ▸ List.mem_reverse.1 hx)
+    simpa using this
+  simp [this]
+
+theorem startsWith_slash_false (b : Line) (h : '/' ∉ b) : startsWith "/" b = false := by
+  cases b with
+  | nil => rfl
+  | cons c r =>
+    have hc : c ≠ '/' := fun e => h (e ▸ List.mem_cons_self)
+    exact slash_prefix_false c r hc
+
+/-- `os.path.join(os.path.dirname(<pre>.aux), <base><K'>)` is `<pre><K'>` -/
+theorem pathJoin_dirname {pre : Line} (hg : goodDir (pre.reverse.dropWhile (· != '/')) = true) (K K' : Line)
+    (hK : '/' ∉ K) (hK' : '/' ∉ K') : pathJoin (dirname (pre ++ K)) (basename pre ++ K') = pre ++ K' := by
+  have hb : startsWith "/" (basename pre ++ K') = false :=
+    startsWith_slash_false _ (by simp [basename_noslash pre, hK'])
+  have hpre : pre ++ K' = (pre.reverse.dropWhile (· != '/')).reverse ++ (basename pre ++ K') := by
+    rw [← List.append_assoc, dir_append_base]
+  unfold dirname pathJoin
+  simp only [dropWhile_append_noslash pre K hK, hb, Bool.false_eq_true, if_false]
+  rw [hpre]
+  generalize hR : pre.reverse.dropWhile (· != '/') = R at hg
+  match R, hg, hR with
+  | [], _, _ => simp
+  | [x], _, hR =>
+    have hx : x = '/' := by simpa using dropWhile_head _ _ _ _ hR
+    subst hx
+    simp [endsWith]
+  | x :: c :: r, hg, hR =>
+    have hx : x = '/' := by simpa using dropWhile_head _ _ _ _ hR
+    subst hx
+    have hc : c ≠ '/' := by simpa [goodDir] using hg
+    have h1 : (('/' :: c :: r).reverse.all (· == '/')) = false := by
+      simp only [List.all_reverse, List.all_cons, Bool.and_eq_false_iff]
+      exact Or.inr (Or.inl (by simpa using hc))
+    have h2 : dropTrailingSlashes ('/' :: c :: r).reverse = (c :: r).reverse := by
+      unfold dropTrailingSlashes
+      rw [List.reverse_reverse, List.dropWhile_cons, if_pos (by decide), List.dropWhile_cons, if_neg (by simpa using hc)]
+    have h3 : endsWith "/" (c :: r).reverse = false := by
+      unfold endsWith
+      rw [List.reverse_reverse]
+      exact slash_prefix_false c r hc
+    simp only [h1, Bool.false_eq_true, if_false, h2, h3, Bool.or_false]
+    simp
 
 end Aux
 open Aux
@@ -108,49 +195,53 @@ open Aux
 theorem auxSelect_auxText (pre : Line) (h : goodPrefix pre = true) :
     auxSelect (pre ++ ".aux".toList) (auxText pre) =
       .ok (pre ++ ".nodes".toList, pre ++ ".nets".toList, pre ++ ".pl".toList, pre ++ ".scl".toList) := by
-  obtain ⟨hne, hf, hs⟩ := goodPrefix_spec h
+  obtain ⟨hf, hs⟩ := goodPrefix_spec h
   have hK : '/' ∉ ".aux".toList := by decide
-  have hpj := fun K' => pathJoin_dirname hs ".aux".toList K' hK
-  have f1 : List.filter (endsWith ".nodes") ["RowBasedPlacement".toList, [':'], pre ++ ".nodes".toList,
-      pre ++ ".nets".toList, pre ++ ".pl".toList, pre ++ ".scl".toList] = [pre ++ ".nodes".toList] := by
+  have hp1 := pathJoin_dirname hs ".aux".toList ".nodes".toList hK (by decide)
+  have hp2 := pathJoin_dirname hs ".aux".toList ".nets".toList hK (by decide)
+  have hp3 := pathJoin_dirname hs ".aux".toList ".pl".toList hK (by decide)
+  have hp4 := pathJoin_dirname hs ".aux".toList ".scl".toList hK (by decide)
+  generalize hbase : basename pre = base at hf hp1 hp2 hp3 hp4
+  have f1 : List.filter (endsWith ".nodes") ["RowBasedPlacement".toList, [':'], base ++ ".nodes".toList,
+      base ++ ".nets".toList, base ++ ".pl".toList, base ++ ".scl".toList] = [base ++ ".nodes".toList] := by
     simp only [List.filter_cons, List.filter_nil,
       show endsWith ".nodes" "RowBasedPlacement".toList = false by decide,
       show endsWith ".nodes" [':'] = false by decide,
-      endsWith_append_true ".nodes" pre ".nodes".toList (by decide),
-      endsWith_append_false ".nodes" pre ".nets".toList (by decide),
-      endsWith_append_false ".nodes" pre ".pl".toList (by decide),
-      endsWith_append_false ".nodes" pre ".scl".toList (by decide), if_true, Bool.false_eq_true, if_false]
-  have f2 : List.filter (endsWith ".nets") ["RowBasedPlacement".toList, [':'], pre ++ ".nodes".toList,
-      pre ++ ".nets".toList, pre ++ ".pl".toList, pre ++ ".scl".toList] = [pre ++ ".nets".toList] := by
+      endsWith_append_true ".nodes" base ".nodes".toList (by decide),
+      endsWith_append_false ".nodes" base ".nets".toList (by decide),
+      endsWith_append_false ".nodes" base ".pl".toList (by decide),
+      endsWith_append_false ".nodes" base ".scl".toList (by decide), if_true, Bool.false_eq_true, if_false]
+  have f2 : List.filter (endsWith ".nets") ["RowBasedPlacement".toList, [':'], base ++ ".nodes".toList,
+      base ++ ".nets".toList, base ++ ".pl".toList, base ++ ".scl".toList] = [base ++ ".nets".toList] := by
     simp only [List.filter_cons, List.filter_nil,
       show endsWith ".nets" "RowBasedPlacement".toList = false by decide,
       show endsWith ".nets" [':'] = false by decide,
-      endsWith_append_true ".nets" pre ".nets".toList (by decide),
-      endsWith_append_false ".nets" pre ".nodes".toList (by decide),
-      endsWith_append_false ".nets" pre ".pl".toList (by decide),
-      endsWith_append_false ".nets" pre ".scl".toList (by decide), if_true, Bool.false_eq_true, if_false]
-  have f3 : List.filter (endsWith ".pl") ["RowBasedPlacement".toList, [':'], pre ++ ".nodes".toList,
-      pre ++ ".nets".toList, pre ++ ".pl".toList, pre ++ ".scl".toList] = [pre ++ ".pl".toList] := by
+      endsWith_append_true ".nets" base ".nets".toList (by decide),
+      endsWith_append_false ".nets" base ".nodes".toList (by decide),
+      endsWith_append_false ".nets" base ".pl".toList (by decide),
+      endsWith_append_false ".nets" base ".scl".toList (by decide), if_true, Bool.false_eq_true, if_false]
+  have f3 : List.filter (endsWith ".pl") ["RowBasedPlacement".toList, [':'], base ++ ".nodes".toList,
+      base ++ ".nets".toList, base ++ ".pl".toList, base ++ ".scl".toList] = [base ++ ".pl".toList] := by
     simp only [List.filter_cons, List.filter_nil,
       show endsWith ".pl" "RowBasedPlacement".toList = false by decide,
       show endsWith ".pl" [':'] = false by decide,
-      endsWith_append_true ".pl" pre ".pl".toList (by decide),
-      endsWith_append_false ".pl" pre ".nodes".toList (by decide),
-      endsWith_append_false ".pl" pre ".nets".toList (by decide),
-      endsWith_append_false ".pl" pre ".scl".toList (by decide), if_true, Bool.false_eq_true, if_false]
-  have f4 : List.filter (endsWith ".scl") ["RowBasedPlacement".toList, [':'], pre ++ ".nodes".toList,
-      pre ++ ".nets".toList, pre ++ ".pl".toList, pre ++ ".scl".toList] = [pre ++ ".scl".toList] := by
+      endsWith_append_true ".pl" base ".pl".toList (by decide),
+      endsWith_append_false ".pl" base ".nodes".toList (by decide),
+      endsWith_append_false ".pl" base ".nets".toList (by decide),
+      endsWith_append_false ".pl" base ".scl".toList (by decide), if_true, Bool.false_eq_true, if_false]
+  have f4 : List.filter (endsWith ".scl") ["RowBasedPlacement".toList, [':'], base ++ ".nodes".toList,
+      base ++ ".nets".toList, base ++ ".pl".toList, base ++ ".scl".toList] = [base ++ ".scl".toList] := by
     simp only [List.filter_cons, List.filter_nil,
       show endsWith ".scl" "RowBasedPlacement".toList = false by decide,
       show endsWith ".scl" [':'] = false by decide,
-      endsWith_append_true ".scl" pre ".scl".toList (by decide),
-      endsWith_append_false ".scl" pre ".nodes".toList (by decide),
-      endsWith_append_false ".scl" pre ".nets".toList (by decide),
-      endsWith_append_false ".scl" pre ".pl".toList (by decide), if_true, Bool.false_eq_true, if_false]
+      endsWith_append_true ".scl" base ".scl".toList (by decide),
+      endsWith_append_false ".scl" base ".nodes".toList (by decide),
+      endsWith_append_false ".scl" base ".nets".toList (by decide),
+      endsWith_append_false ".scl" base ".pl".toList (by decide), if_true, Bool.false_eq_true, if_false]
   unfold auxSelect auxText
   simp only [List.map_cons, List.map_nil, List.flatten_cons, List.flatten_nil, List.append_nil]
-  rw [split_auxLine pre hne hf]
-  simp only [f1, f2, f3, f4, exactlyOne, hpj]
+  rw [hbase, split_auxLine base hf]
+  simp only [f1, f2, f3, f4, exactlyOne, hp1, hp2, hp3, hp4]
 
 namespace Aux
 
